@@ -15,7 +15,8 @@ RULE = ("(a) Tag lists over class {application, context, opening, closing} x num
         "watchdog) a list or raises InvalidTag, nothing else; accept/reject and every tag agree with the reference framer; "
         "re-encode/re-decode is a fixpoint; (c) TagList.get_context and Any.decode agree with a reference bracket model. "
         "Non-trivial: (a) a tag with extended length or extended number; (b) string yielding >= 2 tags or rejected after "
-        ">= 1 complete tag; (c) depth >= 2 or a mismatch/stray/missing close. Distinct by octets / symbol sequence.")
+        ">= 1 complete tag; (c) depth >= 2 or a mismatch/stray/missing close. Distinct by octets / symbol sequence."
+        " One reduced copy of a generated shard runs with the library's debug tracing switched on (label tracing-on).")
 ASSUMPTIONS = [
     "bpverif/ref/asn1.py transcribes clause 20.2.1 framing correctly",
     "initial octets with LVT 6/7 but class bit 0, boolean value fields > 1, reserved number 255 and non-canonical length "
